@@ -72,6 +72,30 @@ func New(p Params) *Model {
 	}
 }
 
+// Clone returns an independent copy of the model (transactions and blocks are shared read-only)
+func (m *Model) Clone() *Model {
+	c := New(m.P)
+	c.Blocks = append([]coin.SignedBlock(nil), m.Blocks...)
+	for k, v := range m.Utxo {
+		c.Utxo[k] = v
+	}
+	for k, v := range m.AllOuts {
+		c.AllOuts[k] = v
+	}
+	for k, v := range m.SpentBy {
+		c.SpentBy[k] = v
+	}
+	for k, v := range m.Txns {
+		c.Txns[k] = v
+	}
+	c.TxOrder = append([]cipher.SHA256(nil), m.TxOrder...)
+	for k, v := range m.Pool {
+		e := *v
+		c.Pool[k] = &e
+	}
+	return c
+}
+
 // Head returns the head block
 func (m *Model) Head() coin.SignedBlock { return m.Blocks[len(m.Blocks)-1] }
 
